@@ -57,6 +57,13 @@ type Gen struct {
 	neverWrite map[string]bool
 	noFunc   int // >0: no function literals (inside assignment targets)
 	Budget   int // soft cap on emitted tokens (0 = none)
+	PendingDefs []GDef // single global definitions to plant at top level of this chunk
+}
+
+// GDef plans one definition of a global: Style 0 `G = exp`, 1 `function G() end`, 2 inside a local function body.
+type GDef struct {
+	Name  string
+	Style int
 }
 
 func NewGen(r *Rng, cfg GenCfg) *Gen {
@@ -396,8 +403,14 @@ func (g *Gen) blockBody(allowRet bool) {
 		n = 0
 	}
 	for i := 0; i < n; i++ {
+		if g.depth == 0 && len(g.PendingDefs) > 0 && g.r.Chance(1, 3) {
+			g.plantDef()
+		}
 		g.stat()
 		g.emit(NL)
+	}
+	for g.depth == 0 && len(g.PendingDefs) > 0 {
+		g.plantDef()
 	}
 	if g.r.Chance(1, 4) || allowRet && g.r.Chance(1, 3) {
 		g.emit("return")
@@ -413,6 +426,26 @@ func (g *Gen) blockBody(allowRet bool) {
 		}
 		g.emit(NL)
 	}
+}
+
+func (g *Gen) plantDef() {
+	d := g.PendingDefs[0]
+	g.PendingDefs = g.PendingDefs[1:]
+	switch d.Style {
+	case 1:
+		g.emit("function", d.Name)
+		g.funcbody(false)
+	case 2:
+		fn := g.fresh("definer")
+		g.emit("local", "function", fn, "(", ")", NL, d.Name, "=")
+		g.exp(1)
+		g.emit(NL, "end", NL, fn, "(", ")")
+		g.declare(fn)
+	default:
+		g.emit(d.Name, "=")
+		g.exp(g.cfg.ExpDepth)
+	}
+	g.emit(NL)
 }
 
 func (g *Gen) scopedBlock(loop bool) {
